@@ -8,6 +8,8 @@ HARNESSES = {
     'holders_seq': {'san': 'asan'},
     'unique_seq': {'san': 'asan'},
     'bits_seq': {'san': 'asan'},
+    'slab_seq': {'san': 'asan'},
+    'slab_seq_track': {'san': 'asan', 'source': 'slab_seq.cpp', 'cxxflags': ['-DFRG_SLAB_TRACK_REGIONS']},
     # basic_string memcpy()s from a null buffer with length 0 (default-constructed strings): no listed property
     # speaks about zero-length copies, so UBSan's nonnull-attribute check is off for this harness (DESIGN.md 2.3)
     'string_seq': {'san': 'asan', 'cxxflags': ['-fno-sanitize=nonnull-attribute']},
@@ -162,6 +164,76 @@ PROPS['C18'] = {
     'level_note': 'trusts libstdc++ as reference and the published pcg32 known-answer vector; bits beyond N are observed only through count()/all()/==',
     'technique': 'differential property testing against standard-library references (rapidcheck tapes, exhaustive small scopes, libFuzzer)',
     'assumptions': ['bit indices < N', 'bound > 0', 'strict weak order comparators'],
+}
+
+SLAB_GEN = ('first tape elements pick the policy configuration (8 size/alignment configurations: all defaults with unaligned map, defaults aligned, 16K slabs/9 '
+            'buckets, 32K slabs with 3 objects of the largest class, 12K slab in a 64K superblock aligned and unaligned, 64K pages, 28K slab that is not a '
+            'multiple of its largest class; {cfgs}) and a fault plan, then a history of allocate / free / deallocate(requested|reported size) / realloc '
+            '(random, within the class, just leaving the class, shrinking, growing) / realloc(null,n) / realloc(p,0) / free(null) / get_size / churn phases '
+            '(k blocks of one class allocated and freed in generated order for r rounds) / realloc chains; sizes from 0, class sizes +-1, the small/large '
+            'threshold +-1, page multiples +-1, uniform small, up to 3 superblocks. The policy hands out never-reused addresses from one arena, logs every '
+            'callback, fills fresh memory with 0xCD and ASan-poisons unmapped regions. ')
+def slab_runs(q, th, enum=False):
+    return [{'harness': 'slab_seq', 'quick': {'enum': enum, 'rc': rc(q, sizes=[60, 120, 250])}, 'thorough': {'enum': enum, 'rc': rc(th, sizes=[60, 120, 250, 500]), 'fuzz': {'seconds': 150}}},
+            {'harness': 'slab_seq_track', 'quick': {'rc': rc(q // 3, sizes=[60, 120], workers=6)}, 'thorough': {'rc': rc(th // 3, sizes=[60, 120, 250], workers=8)}}]
+CFG_TAGS = ['cfg-' + n for n in ('defaults/unaligned', 'defaults/aligned', 'slab16K/aligned/9', 'slab32K/unaligned/11', 'slab12K-sb64K/aligned/10', 'page64K/unaligned/13', 'slab28K-sb32K/aligned/11', 'slab12K-sb64K/unaligned/10')]
+PROPS['C01'] = {
+    'runs': slab_runs(900, 20000),
+    'rule': SLAB_GEN.format(cfgs='without poison hooks') + 'Oracle after every call: the requested and the reported extent of the new block lie inside one currently mapped region, are disjoint from every '
+            'other live block and from the frame header, the pointer is aligned to min(page, max(8, pow2ceil(n))), get_size() >= n and unchanged at every later touch, '
+            'a per-block fill pattern over the whole reported size is intact (an allocator write into a live block breaks it). Non-trivial: the history reuses a freed '
+            'block\'s class, touches >= 2 classes and >= 1 large block; distinct = hash of (configuration, decoded history).',
+    'required_tags': CFG_TAGS + ['class-reuse', 'large', 'moving-realloc'],
+    'min_cases': {'quick': 8000, 'thorough': 150000},
+    'level_text': 'generated allocation histories over 8 policy configurations against an interval/region model with content patterns; held on everything generated',
+    'level_note': 'trusts the harness policy (arena, region log) and ASan; class sizes are recomputed independently (8,16,32,64,128,...)',
+    'technique': 'stateful model-based property testing (rapidcheck tapes, libFuzzer) with a region/interval model and content patterns',
+    'assumptions': ['single thread', 'configurations in which at least two objects of the largest class fit behind the slab header'],
+}
+PROPS['C02'] = {
+    'runs': slab_runs(900, 20000),
+    'rule': SLAB_GEN.format(cfgs='without poison hooks') + 'Oracle: after realloc the first min(old, new) bytes equal the old pattern, an unmoved block keeps address and reported size, (null,n) '
+            'allocates, (p,0) frees and returns null, free/deallocate of null make no policy call and leave the page counter alone; the contents of all live blocks are '
+            'verified after every call; footprint: slabs ever mapped for a class <= ceil(peak live blocks of the class / objects per slab), with objects per slab '
+            'calibrated on a scratch pool and cross-checked against floor(slab/size) - ceil(512/size) <= n <= floor(slab/size). Non-trivial: >= 1 moving realloc, >= 1 '
+            'in-place realloc and >= 1 churn round that refilled a previously full slab without mapping; distinct = hash of the decoded history.',
+    'required_tags': CFG_TAGS + ['moving-realloc', 'inplace-realloc', 'churn-refill'],
+    'min_cases': {'quick': 8000, 'thorough': 150000},
+    'level_text': 'generated histories with content patterns and a per-class footprint bound; held on everything generated',
+    'level_note': 'objects-per-slab is calibrated against the tree under test and only loosely bounded independently',
+    'technique': 'stateful model-based property testing (content round-trip through realloc, footprint invariant over the history)',
+    'assumptions': ['single thread'],
+}
+PROPS['C03'] = {
+    'runs': slab_runs(900, 20000),
+    'rule': SLAB_GEN.format(cfgs='each with and without poison/unpoison/unpoison_expand hooks') + 'Oracle on the callback log: every unmap equals exactly one mapped (base,len), once, with no live block '
+            'other than the one being freed inside; a freed large block\'s reservation is unmapped in the same call, every mapped region is a slab or holds a live large '
+            'block; numUsedPages() changes per call by exactly the increments of the regions taken/returned (increment recorded when a region kind is first seen, > 0, '
+            'consistent afterwards), ends at the sum over mapped slabs; poisoning policies forward to ASan\'s shadow, map returns poisoned memory: requested bytes of '
+            'live blocks unpoisoned (touched blocks every step, sweep every 16 steps), freed small blocks poisoned except the first word, every hook call inside a mapped '
+            'region, and any use-after-poison report is an access by the pool. Non-trivial: a large block freed (unmap) while other blocks are live and, under a '
+            'poisoning policy, a realloc that leaves its class; distinct = hash of the decoded history.',
+    'required_tags': CFG_TAGS + [t + '+poison' for t in CFG_TAGS] + ['large-free-with-live', 'realloc-left-class'],
+    'min_cases': {'quick': 8000, 'thorough': 150000},
+    'level_text': 'generated histories with a complete log of policy callbacks and ASan shadow as poison model; held on everything generated',
+    'level_note': 'poison state is ASan\'s shadow (8-byte granules); a sanitizer report is attributed to the focused property',
+    'technique': 'stateful model-based property testing with callback-log invariants and ASan manual poisoning as the poison oracle',
+    'assumptions': ['single thread', 'unpoison_expand makes a range accessible whatever its previous state (managarm KASAN semantics)'],
+}
+PROPS['C04'] = {
+    'level': 'fault_enumeration',
+    'runs': slab_runs(900, 20000, enum=True),
+    'rule': SLAB_GEN.format(cfgs='without poison hooks') + 'Fault plans: a random mask over the map-call ordinals (density 1/4), one failing ordinal, two failing ordinals; enumeration: for base '
+            'histories with 2..26 map calls every single position and every pair of positions fails. Oracle: the call during which map returned 0 returns null; all live '
+            'blocks keep address, reported size and contents, the mapped-region set and numUsedPages() are unchanged, no pool lock is held (instrumented mutex); the same '
+            'request repeated with mapping enabled succeeds; the history continues under the C01-C03 oracle. Non-trivial: >= 1 injected failure was hit by a small '
+            'allocation, a large allocation or a copying realloc; distinct = hash of (fault plan, decoded history).',
+    'required_tags': ['fault-small', 'fault-large', 'fault-realloc', 'fault-hit'],
+    'min_cases': {'quick': 8000, 'thorough': 150000},
+    'level_text': 'every single and every pair of Policy::map positions failed for a family of base histories, plus random fault masks over generated histories',
+    'level_note': 'fault points are the calls to Policy::map only (the only fallible call the pool makes); base histories are a fixed deterministic family',
+    'technique': 'fault-injection enumeration over generated histories (single and double map() failures) with a model-unchanged oracle',
+    'assumptions': ['single thread', 'map() is the only operation that can fail'],
 }
 
 NOT_APPLICABLE = {}
